@@ -41,6 +41,10 @@ package kvstore
 //@   flag termination
 //@   requires #cinv: k.cinv()
 //@   requires #cursor_range: cursor < 4611686018427387904 && f != nil
+//@   atcall table\.Table\)\.Scan(RegexMatch)?$ requires #resumes_where_the_cursor_points [C12]: (old(cursor) / k.tableSize) in k.tablesByCoefficient ==>
+//@                t == k.tablesByCoefficient[old(cursor) / k.tableSize] && tableCursor == old(cursor) - k.tableSize * (old(cursor) / k.tableSize)
+//@   atcall table\.Table\)\.Scan(RegexMatch)?$ requires #a_later_table_is_scanned_from_its_start [C12]: !((old(cursor) / k.tableSize) in k.tablesByCoefficient) ==> tableCursor == 0 &&
+//@                (forall c uint64 :: c in k.tablesByCoefficient && c > old(cursor) / k.tableSize && (forall d uint64 :: d in k.tablesByCoefficient && d > old(cursor) / k.tableSize ==> d >= c) ==> t == k.tablesByCoefficient[c])
 //@   ensures #lands_on_a_table [C12]: result.1 == nil && result.0 != 0 ==> (result.0 / k.tableSize) in k.tablesByCoefficient
 //@   ensures #no_table_skipped [C12]: result.1 == nil && result.0 != 0 ==> forall c uint64 :: c in k.tablesByCoefficient && cursor / k.tableSize < c && c < result.0 / k.tableSize ==>
 //@                !((cursor / k.tableSize) in k.tablesByCoefficient) && (forall d uint64 :: d in k.tablesByCoefficient && d > cursor / k.tableSize ==> d >= c)
